@@ -52,6 +52,22 @@ def generate(rng, tier, ctx):
         d = rng.seckey(); k = rng.seckey(); R = pmul(k, G); r = R[0] % N
         m = (starget * k - r * d) % N
         cases.append(('ecdsa_verify %s %s %s' % (sig(r, starget), h32(m), pt(pmul(d, G))), ('verify', 'crafted-s-%s' % ('half' if starget == (N - 1) // 2 else 'half+1' if starget == (N + 1) // 2 else 'edge'))))
+    # x(R) >= n wrap-around: R with x in [n, p) gives r = x - n (must ACCEPT through the second comparison);
+    # r = x + (p - n) for a small x must be REJECTED (r + n = x + p is not < p). Public key crafted: Q = r^-1 (s R - m G)
+    def crafted(x, r, cls):
+        R = lift_x(x, rng.randint(0, 1))
+        if R is None or not (0 < r < N): return
+        s_ = rng.seckey(); s_ = min(s_, N - s_); m_ = rng.rand256()
+        Q = pmul(pow(r, -1, N), padd(pmul(s_, R), pneg(pmul(m_ % N, G))))
+        if Q is None: return
+        cases.append(('ecdsa_verify %s %s %s' % (sig(r, s_), h32(m_), pt(Q)), ('verify', cls)))
+    for off in range(0, 60):
+        crafted(N + off, off, 'x>=n-wrap-accept')
+    for x in list(range(1, 40)) + [rng.randint(1, 1 << 120) for _ in range(20)]:
+        crafted(x, x + (P - N), 'r=x+p-n-reject')
+        crafted(x, x, 'small-x-accept')
+    for t in [1 << 208, 3 << 208, (1 << 255) % N, 0x7fff << 208]:
+        for x in range(1, 12): crafted(x, (t + x) % N, 'top-limb-r-reject')
     # normalize
     for s in B + [rng.seckey() for _ in range(6)]:
         cases.append(('sig_normalize %s' % sig(rng.seckey(), s % N), ('normalize', 'high' if s % N > (N - 1) // 2 else 'low')))
